@@ -66,18 +66,27 @@ func init() {
 
 	// ---- C11: power loss with SyncEnable
 	c11gen := func(r *core.Rng, tier string) *prog.Program {
-		p := gen.KV(r, crashKVParams(r, tier, []int{0, 1}))
+		kp := crashKVParams(r, tier, []int{0, 1})
+		if r.Bool(0.25) {
+			// separate sub-batch with Merge: the only place where removals (which
+			// power loss may undo) happen
+			kp.Merge = 0.2
+			kp.Segs = []int64{96, 128, 144, 192}
+		}
+		p := gen.KV(r, kp)
 		p.Cfg.Sync = true
 		return p
 	}
 	c11 := func(tier string) func(uint64, *prog.Program) *RunResult {
 		return func(seed uint64, p *prog.Program) *RunResult {
+			p.Cfg.Sync = true // the premise of C11; shrinking must not drop it
 			res := crashExec(seed, p, snapPolicy(tier, false, false, true), judgeMode{Recovery: true}, run.Options{Deferred: true})
 			res.Nontrivial = res.Images >= 3
 			return res
 		}
 	}
 	deep11 := func(seed uint64, p *prog.Program) *RunResult {
+		p.Cfg.Sync = true
 		return crashExec(seed, p, deepPolicy(false, false, true), judgeMode{Recovery: true}, run.Options{Deferred: true})
 	}
 	Register(&Spec{
